@@ -9,7 +9,7 @@ use serde_json::json;
 const POOL: &[char] = &[
     '\\', '^', '$', '.', '|', '?', '*', '+', '(', ')', '[', ']', '{', '}', '-', '/', '0', '1', '9', 'a', 'b', 'A', 'k', 's', 'K', 'S', ' ', '\n', '\t',
     '\0', 'é', 'ß', 'ſ', '\u{212A}', 'σ', 'ς', 'Σ', '中', '😀', '𐐀', '𐐨', ',', ':', '&', '=', '<', '>', '!', '#', '%', '@', '`', '~', '_', 'd', 'w', 'p', 'u', 'x', 'c',
-    'n',
+    'n', '\u{80}', '\u{FF}', '\u{100}', '\u{7FF}', '\u{800}', '\u{BF}', '\u{10000}',
 ];
 
 fn gen(src: &mut Src, tier: Tier) -> Case {
